@@ -126,18 +126,23 @@ def sequential(rng: random.Random, max_stmts: int = 12) -> str:
     return '\n'.join(lines) + '\n'
 
 
-def concurrent(rng: random.Random, nthreads: int, ntasks: int, nested: bool = False) -> tuple[str, dict]:
-    """A program with distinct worker functions per thread / task. Returns (source, {entity tag: function name})."""
+def concurrent(rng: random.Random, nthreads: int, ntasks: int, nested: bool = False, pool: bool = False) -> tuple[str, dict]:
+    """A program with distinct worker functions per thread / task. Returns (source, {entity tag: function name}).
+    With `pool`, the tasks also hand work to executor threads (`asyncio.to_thread`), which are reused."""
     lines = ['import threading, asyncio', '']
     owners: dict = {}
+    if pool and ntasks:
+        lines += ['def pool_work(k):', '    w = k * 2', "    print('W', k, threading.current_thread().name)", '    return w', '']
     for i in range(nthreads):
         n = rng.randint(1, 3)
         lines += [f'def thread_body_{i}():', f'    t{i} = 0', f'    for k in range({n}):', f'        t{i} += k', f"    print('T{i}', t{i})", '']
         owners[f'T{i}'] = f'thread_body_{i}'
     for i in range(ntasks):
         n = rng.randint(1, 3)
-        lines += [f'async def task_body_{i}():', f'    c{i} = 0', f'    for k in range({n}):', f'        await asyncio.sleep(0)', f'        c{i} += k',
-                  f"    print('A{i}', c{i})", '']
+        lines += [f'async def task_body_{i}():', f'    c{i} = 0', f'    for k in range({n}):', f'        await asyncio.sleep(0)', f'        c{i} += k']
+        if pool:
+            lines += [f'    c{i} += await asyncio.to_thread(pool_work, {i})', f'    c{i} += await asyncio.to_thread(pool_work, {i + 10})']
+        lines += [f"    print('A{i}', c{i})", '']
         owners[f'A{i}'] = f'task_body_{i}'
     if ntasks:
         lines += ['async def amain():', '    await asyncio.gather(' + ', '.join(f'task_body_{i}()' for i in range(ntasks)) + ')', '']
